@@ -392,10 +392,18 @@ Definition queue_ackmsg (s : state) (qn : string) (u : N) : state :=
   end.
 
 (* Queue.Requeue *)
+(* msgPStorage.Update: a persistent message of a durable queue is written back (with its new delivery count) - also when
+   a purge had removed its key while the message was out with a consumer.  Touches the store only. *)
+Definition store_writeback (s : state) (qn : string) (u : N) (dur : bool) : state :=
+  let pers := match get_msg s u with Some m => m_pers m | None => false end in
+  if dur && pers && negb (existsb (fun k => (fst k =? u) && seqb (snd k) qn) (st_db s))
+  then s <| st_db ::= fun l => l ++ [(u, qn)] |> else s.
+
 Definition queue_requeue (s : state) (qn : string) (u : N) : state :=
   match get_queue s qn with
   | Some qu =>
     if negb (q_active qu) then s else
+    let s := store_writeback s qn u (q_durable qu) in
     let s := upd_msg s u (fun m => m <| m_dc ::= N.succ |>) in
     let s := s <| srv_ready ::= Z.succ |> <| srv_unacked ::= Z.pred |> in
     set_queue s qn (call_consumers (qu <| q_ready ::= cons u |> <| q_mready ::= Z.succ |> <| q_munacked ::= Z.pred |>
